@@ -14,9 +14,17 @@ func init() {
 	register("DBG", propMeta{}, func(c *Ctx, r *Run) {
 		for _, spec := range strings.Split(os.Getenv("MPS_DBG"), ",") {
 			parts := strings.Split(spec, ":")
-			fn := c.LookupMethod(parts[0], parts[1], parts[2])
+			name, anon := parts[2], -1
+			if i := strings.IndexByte(name, '$'); i > 0 {
+				fmt.Sscanf(name[i+1:], "%d", &anon)
+				name = name[:i]
+			}
+			fn := c.LookupMethod(parts[0], parts[1], name)
 			if len(parts) == 3 && parts[1] == "" {
-				fn = c.LookupFunc(parts[0], parts[2])
+				fn = c.LookupFunc(parts[0], name)
+			}
+			if fn != nil && anon > 0 && anon <= len(fn.AnonFuncs) {
+				fn = fn.AnonFuncs[anon-1]
 			}
 			if fn == nil {
 				fmt.Println("not found", spec)
